@@ -99,7 +99,7 @@ ENGINE = dict(name="History", path="specs/History.tla", serves_properties=["C19"
               kind_free_text="TLA+ spec (Level A: SameLength/SameStep/CountersEqual/StepIndex/SavedCount/Entries/DisabledEmpty/Propagated "
                              "against a log of executed calls; Level B: per-object gates, gating ancestors, propagation path and "
                              "solve-save-step order as coded), TLC exhaustive over schedules x consists x simulation kinds, every maximal "
-                             "schedule replayed into the four real simulation kinds, every recorded object tree validated by TLC "
+                             "schedule replayed into the five real simulation kinds, every recorded object tree validated by TLC "
                              "(HistoryTrace.tla)")
 _NOTE = ("Trusted: TLC, serde's projection of the simulation objects, the harness' path->node classification. Bounded: schedules of "
          "<= 8 actions with <= 2 interval changes, intervals None/1/2/3, 1-3 locomotives (conventional / battery-electric / hybrid); "
@@ -111,6 +111,7 @@ MANIFEST = {
                      "the code has one, train -> consist -> locomotive -> components propagation, solve/save/step order) implies the "
                      "alignment clauses on every reachable state of the bounded model, emits every maximal schedule, and re-evaluates "
                      "the same clauses on the object tree the real LocomotiveSimulation / ConsistSimulation / SetSpeedTrainSim / "
-                     "SpeedLimitTrainSim (incl. walk_timed_path) produced after every action.",
+                     "SpeedLimitTrainSim (incl. walk_timed_path) / SpeedLimitTrainSimVec produced after every action, construction with "
+                     "different intervals for units, Consist::new and simulation, and re-listed units included.",
                 note=_NOTE),
 }
